@@ -1,2 +1,461 @@
-(** C09 - theorem file under construction *)
-From Vivid Require Import Actor.Core.
+(** C09 - after any failure no surviving actor stays paused; queued mail survives restart.
+
+    Model: Actor/Core.v (ActorCore) - [IFailed] = Context.failed, [dispatch] on [MSup] = onSupervise,
+    [ISupPause] / [ISupApply] = the pause loop and supervisionContext.applyDecision, [IRestartFinish] =
+    killedHandler.handleRestart, [ICleanup] = cleanupIfNotRestarting, zombie branch of onKilled.  Scripts,
+    decisions and hook outcomes are data: every theorem holds for all of them and all schedules.
+    Derived notions: Actor/SpecMail.v.  Statements only; proofs in Actor/ProofsMail*.v. *)
+From Coq Require Import List NArith ZArith Bool.
+From Vivid Require Import Actor.Core Actor.CoreRun Actor.SpecMail Actor.ProofsMailBase Actor.ProofsMail Actor.ProofsMailInv Actor.ProofsMailWf Actor.ProofsMailAcct Actor.ProofsMailPause Actor.ProofsMailQuiet.
+Import ListNotations.
+
+(** ============================ (a) a failure pauses the actor and is reported once ============================ *)
+
+(** Context.failed: pause the own mailbox, ONE supervision report (child = self, no targets yet, no sub-context)
+    to the parent as a system message, then the two events *)
+Theorem C09_failure_pauses_and_reports_once s t h x :
+  get s (self_of t) = Some x ->
+  exec1 s t h IFailed =
+  (s, [IPauseSt; IEnq true (rref_parent x) (RObj (self_of t)) (MSup (SupCtx (RObj (self_of t)) [] None)); IEnqDone;
+       IPub evFailed (actor_key x); IPub evPaused (actor_key x)]).
+Proof. exact (exec1_failed s t h x). Qed.
+
+(** a behaviour invocation (not a zombie, not the guard) is logged, runs its script up to the first panic, and
+    calls failed() exactly when the script panics and the recovery policy of the call site says so:
+    [RecFail] (OnLaunch, user messages, events) always; [RecLog] (OnKill, the own OnKilled, everything during a
+    restart) never; [RecKilled who] (a child's / watched actor's OnKilled) only in state Running and who <> self *)
+Theorem C09_behaviour_invocation s t h x p m acts r :
+  get s (self_of t) = Some x -> a_zombie x = false -> a_parent x = Some p ->
+  exec1 s t h (IBeh m acts r) =
+  (add_obs s (OSeen (self_of t) (a_inst x) (match a_cons x with CBusy md => md | _ => mode_top x end) m),
+   map IAct (fst (take_until_panic acts)) ++
+   (if snd (take_until_panic acts) &&
+       match r with
+       | RecFail => true
+       | RecLog => false
+       | RecKilled who => match a_state x with Running => negb (ref_eq s who (RObj (self_of t))) | _ => false end
+       end
+    then [IFailed] else [])).
+Proof. exact (exec1_beh s t h x p m acts r). Qed.
+
+Theorem C09_failed_iff_panic s t h x p m acts r :
+  get s (self_of t) = Some x -> a_zombie x = false -> a_parent x = Some p ->
+  (In IFailed (snd (exec1 s t h (IBeh m acts r))) <->
+   snd (take_until_panic acts) = true /\ reports s (self_of t) x r = true).
+Proof. exact (exec1_beh_failed_iff s t h x p m acts r). Qed.
+
+(** no supervision while stopping: OnKill runs under the log-only policy ... *)
+Theorem C09_no_supervision_while_stopping_onkill s t h x poison :
+  get s (self_of t) = Some x ->
+  exec1 s t h (IDoKill poison) =
+  (s, (match a_children x with
+       | [] => []
+       | l => [IEnqAny (negb poison) (map (fun p => RObj (snd p)) l) (RObj (self_of t)) (MKill (RObj (self_of t)) poison)]
+       end)
+      ++ [IBeh (match a_cur x with Some e => e_msg e | None => MKill RNone poison end) (sp_kill (a_spec x)) RecLog;
+          IOnKilled (RObj (self_of t))]).
+Proof. exact (exec1_dokill s t h x poison). Qed.
+
+(** ... and in a state other than Running a panic in a child's OnKilled (policy [RecKilled]) or anywhere under
+    [RecLog] produces no report *)
+Theorem C09_no_supervision_while_stopping s t h x p m acts r :
+  get s (self_of t) = Some x -> a_zombie x = false -> a_parent x = Some p ->
+  a_state x <> Running -> r <> RecFail ->
+  ~ In IFailed (snd (exec1 s t h (IBeh m acts r))).
+Proof. exact (exec1_beh_not_failed_stopping s t h x p m acts r). Qed.
+
+(** ============================ (b) every decision brings the targets back ============================ *)
+
+(** onSupervise: decision and targets.  Strategy 0 (none: the system default, always at the root) decides Stop and
+    consumes no decision; otherwise the next scripted decision (Stop when exhausted).  Targets: one-for-all
+    (2) = all children of the supervisor, else the failed child.  The handler then pauses the targets and applies. *)
+Theorem C09_supervise s a x e c :
+  e_msg e = MSup c -> (is_dead x e && negb (a_zombie x)) = false ->
+  dispatch s a x e =
+  (set_actor s a (set_decisions (set_mb x (a_sq x) (a_uq x) (a_paused x) (a_cons x) (Some e)) (snd (sup_decision x))),
+   [ISupPause c (fst (sup_decision x)) (sup_targets x c) []; IEndHandler]).
+Proof. exact (dispatch_sup s a x e c). Qed.
+
+Theorem C09_root_decides_stop x :
+  sp_strategy (a_spec x) = 0%N -> sup_decision x = (DStop, a_decisions x).
+Proof. exact (sup_decision_root x). Qed.
+
+(** each step of the pause loop sends MCmdPause (system) to one not-yet-paused target, in any order ... *)
+Theorem C09_pause_loop_step s t c d rem done rest choice to :
+  pend_of s t = ISupPause c d rem done :: rest -> nth_error rem choice = Some to ->
+  step s (EvPush t choice) =
+  set_pend (fst (deliver (snd (resolve s to)) (fst (resolve s to)) {| e_sys := true; e_sender := RObj (self_of t); e_msg := MCmdPause |}))
+           t (IEnqDone :: ISupPause c d (firstn choice rem ++ skipn (S choice) rem) (done ++ [to]) :: rest).
+Proof. exact (step_push_sup_pause s t c d rem done rest choice to). Qed.
+
+(** ... and when none is left the decision is applied to the paused targets *)
+Theorem C09_pause_loop_end s t h x c d done :
+  get s (self_of t) = Some x -> exec1 s t h (ISupPause c d [] done) = (s, [ISupApply c d done]).
+Proof. exact (exec1_sup_pause_done s t h x c d done). Qed.
+
+(** Resume: MCmdResume (system) to every target of the whole escalation chain *)
+Theorem C09_resume_decision s t h x c targets :
+  get s (self_of t) = Some x ->
+  exec1 s t h (ISupApply c DResume targets) =
+  (s, flat_map (fun r => [IEnq true r (RObj (self_of t)) MCmdResume; IEnqDone]) (chain_targets (with_targets c targets))).
+Proof. exact (exec1_sup_resume s t h x c targets). Qed.
+
+(** Restart: the targets get MRestart - a system message when immediate; a user message followed by a
+    resume of the whole chain when graceful (so the mail queued before it is processed first) *)
+Theorem C09_restart_decision s t h x c targets d :
+  get s (self_of t) = Some x -> d = DRestart \/ d = DGRestart ->
+  exec1 s t h (ISupApply c d targets) =
+  (s, flat_map (fun r => [IEnq (negb (is_graceful d)) r (RObj (self_of t)) (MRestart (is_graceful d)); IEnqDone]) targets
+      ++ if is_graceful d then resume_all (self_of t) (with_targets c targets) else []).
+Proof. exact (exec1_sup_restart s t h x c targets d). Qed.
+
+(** a running target turns the restart into its own kill chain, keeping queues, stash and the pause flag *)
+Theorem C09_restart_received s a x e poison :
+  e_msg e = MRestart poison -> a_state x = Running ->
+  exists y, dispatch s a x e = (set_actor s a y, [IPub evRestarting (actor_key x); IDoKill poison; IEndHandler]) /\
+            a_state y = Killing /\ a_restarting y = Some poison /\ a_uq y = a_uq x /\ a_sq y = a_sq x /\
+            a_stash y = a_stash x /\ a_paused y = a_paused x.
+Proof. exact (dispatch_restart_running s a x e poison). Qed.
+
+(** when its last child is gone the stopping actor marks itself Killed, runs its own OnKilled (log-only policy)
+    and continues with the restart (if one is in progress) or with the cleanup *)
+Theorem C09_check_mark s t h x :
+  get s (self_of t) = Some x -> a_children x = [] -> a_state x = Killing ->
+  exists y, fst (exec1 s t h ICheckMark) = set_actor s (self_of t) y /\ a_state y = Killed /\
+            a_uq y = a_uq x /\ a_sq y = a_sq x /\ a_paused y = a_paused x /\ a_stash y = a_stash x /\
+  snd (exec1 s t h ICheckMark) =
+    [IBeh (MKilled (RObj (self_of t))) (sp_killed (a_spec x)) RecLog;
+     match a_restarting x with None => ICleanup | Some _ => IRestartFinish end].
+Proof. exact (exec1_checkmark s t h x). Qed.
+
+(** the restart completes: with successful hooks the actor is Running again (fresh behaviour stack, next
+    provider instance), the queues and the stash are kept, the FIRST thing it does is mailbox.Resume, and
+    OnLaunch is handled inline before any queued message *)
+Theorem C09_restart_finish_ok s t h x :
+  get s (self_of t) = Some x -> restart_ok x = true ->
+  exists y, exec1 s t h IRestartFinish =
+    (set_actor s (self_of t) y,
+     [IResume1; IPub evRestarted (actor_key x); IPub evResumed (actor_key x);
+      IBeh MLaunch (sp_launch (a_spec x)) RecFail; IPub evLaunched (actor_key x)]) /\
+    a_state y = Running /\ a_restarting y = None /\ a_zombie y = a_zombie x /\ a_modes y = [0%N] /\
+    a_inst y = (if sp_provider (a_spec x) then (a_inst x + 1)%N else a_inst x) /\
+    a_uq y = a_uq x /\ a_sq y = a_sq x /\ a_stash y = a_stash x /\ a_paused y = a_paused x /\
+    a_cur y = Some {| e_sys := true; e_sender := rref_parent x; e_msg := MLaunch |}.
+Proof. exact (exec1_restart_finish_ok s t h x). Qed.
+
+(** with a failing OnRestarted / OnPrelaunch hook the actor becomes a zombie; it sends nothing (no termination
+    notice) and also resumes its mailbox, so that it keeps consuming its mail *)
+Theorem C09_restart_finish_zombie s t h x :
+  get s (self_of t) = Some x -> restart_ok x = false ->
+  exists y, exec1 s t h IRestartFinish = (set_actor s (self_of t) y, [IResume1]) /\
+    a_zombie y = true /\ a_state y = a_state x /\ a_uq y = a_uq x /\ a_sq y = a_sq x /\ a_stash y = a_stash x /\
+    a_paused y = a_paused x.
+Proof. exact (exec1_restart_finish_fail s t h x). Qed.
+
+(** Resume's first CAS on a paused mailbox clears the flag and keeps the queues *)
+Theorem C09_resume_unpauses s t x rest :
+  pend_of s t = IResume1 :: rest -> get s (self_of t) = Some x -> a_paused x = true ->
+  exists x', get (step s (EvResume1 t)) (self_of t) = Some x' /\ a_paused x' = false /\ a_uq x' = a_uq x /\ a_sq x' = a_sq x.
+Proof. exact (step_resume1_unpauses s t x rest). Qed.
+
+(** the resume command *)
+Theorem C09_resume_command s a x e :
+  e_msg e = MCmdResume -> (is_dead x e && negb (a_zombie x)) = false ->
+  dispatch s a x e = (set_actor s a (set_mb x (a_sq x) (a_uq x) (a_paused x) (a_cons x) (Some e)),
+                      [IResume1; IPub evResumed (actor_key x); IEndHandler]).
+Proof. exact (dispatch_cmd_resume s a x e). Qed.
+
+(** a zombie runs no user code and sends nothing on a user message: the whole step returns the consumer to its loop *)
+Theorem C09_zombie_unpaused_and_silent s a x e tag acts :
+  get s a = Some x -> a_cons x = CH e -> e_msg e = MUser tag acts -> a_zombie x = true ->
+  step s (EvHandle a) = set_actor s a (handled x (Some e)).
+Proof. exact (handle_zombie_user s a x e tag acts). Qed.
+
+(** no behaviour invocation of a zombie does anything *)
+Theorem C09_zombie_runs_no_user_code s t h x m acts r :
+  get s (self_of t) = Some x -> a_zombie x = true -> exec1 s t h (IBeh m acts r) = (s, []).
+Proof. exact (exec1_beh_zombie s t h x m acts r). Qed.
+
+(** a zombie is released by an explicit Kill (HandleEnvelop passes OnKill to the kill chain, which ends in
+    onKilled(self)) or by any OnKilled it receives: onKilled's zombie branch = cleanup (the termination notices to
+    watchers and parent, ActorKilledEvent, Resume) and leaving the zombie state, once *)
+Theorem C09_zombie_kill s a x e k poison :
+  a_zombie x = true -> e_msg e = MKill k poison ->
+  dispatch s a x e = (set_actor s a (set_mb x (a_sq x) (a_uq x) (a_paused x) (a_cons x) (Some e)), [IDoKill poison; IEndHandler]).
+Proof. exact (dispatch_zombie_kill s a x e k poison). Qed.
+
+Theorem C09_zombie_killed s a x e who :
+  a_zombie x = true -> e_msg e = MKilled who ->
+  dispatch s a x e = (set_actor s a (set_mb x (a_sq x) (a_uq x) (a_paused x) (a_cons x) (Some e)), [IOnKilled who; IEndHandler]).
+Proof. exact (dispatch_zombie_killed s a x e who). Qed.
+
+Theorem C09_zombie_release s t h x who :
+  get s (self_of t) = Some x -> a_zombie x = true -> exec1 s t h (IOnKilled who) = (s, [ICleanup; IUnzombie]).
+Proof. exact (exec1_onkilled_zombie s t h x who). Qed.
+
+Theorem C09_unzombie s t h x :
+  get s (self_of t) = Some x -> exec1 s t h IUnzombie = (set_actor s (self_of t) (set_zombie x false), []).
+Proof. exact (exec1_unzombie s t h x). Qed.
+
+(** Stop: the targets get OnKill - a system message when immediate; a user message (poison) followed by a
+    resume of the whole chain when graceful; a killed actor's cleanup resumes its mailbox *)
+Theorem C09_stop_decision s t h x c targets d :
+  get s (self_of t) = Some x -> d = DStop \/ d = DGStop ->
+  exec1 s t h (ISupApply c d targets) =
+  (s, flat_map (fun r => [IEnq (negb (is_graceful d)) r (RObj (self_of t)) (MKill (RObj (self_of t)) (is_graceful d)); IEnqDone]) targets
+      ++ if is_graceful d then resume_all (self_of t) (with_targets c targets) else []).
+Proof. exact (exec1_sup_stop s t h x c targets d). Qed.
+
+Theorem C09_cleanup s t h x :
+  get s (self_of t) = Some x ->
+  exec1 s t h ICleanup =
+  (set_reg (set_subs s (unsub_all (subs s) (a_path x))) (aremove (reg s) (a_path x)),
+   cleanup_sends (self_of t) x ++ [IPub evKilled (actor_key x); IResume1]).
+Proof. exact (exec1_cleanup s t h x). Qed.
+
+(** Escalate, and every out-of-range decision: the supervisor pauses itself and reports once to its own parent,
+    with the current context (its targets recorded) chained as sub-context *)
+Theorem C09_escalate s t h x c targets d :
+  get s (self_of t) = Some x -> d = DEscalate \/ d = DInvalid ->
+  exec1 s t h (ISupApply c d targets) =
+  (s, [IPauseSt; IEnq true (rref_parent x) (RObj (self_of t)) (MSup (SupCtx (RObj (self_of t)) [] (Some (with_targets c targets)))); IEnqDone]).
+Proof. exact (exec1_sup_escalate s t h x c targets d). Qed.
+
+(** ============================ (d) who pauses, who resumes ============================ *)
+
+(** the paused flag of a mailbox is written only by the two mailbox words executed by the actor's OWN thread:
+    Pause's store sets it, Resume's first CAS clears it; no other event, and no other actor's thread, changes it *)
+Theorem C09_paused_only_by_pause_resume s ev b :
+  err (step s ev) = false ->
+  paused_at (step s ev) b =
+  match ev with
+  | EvPauseSt t => if Nat.eqb (self_of t) b then true else paused_at s b
+  | EvResume1 t => if Nat.eqb (self_of t) b then false else paused_at s b
+  | _ => paused_at s b
+  end.
+Proof. exact (paused_step_explicit s ev b). Qed.
+
+(** a Pause is put on an actor's instruction list only by Context.failed ([IFailed]) and by an escalating
+    applyDecision - each followed by exactly one supervision report to the parent, (a) and (b) above - ... *)
+Theorem C09_pause_sites_exec s t h i :
+  In IPauseSt (snd (exec1 s t h i)) ->
+  i = IFailed \/ exists c d targets, i = ISupApply c d targets /\ (d = DEscalate \/ d = DInvalid).
+Proof. exact (exec1_pause_sites_explicit s t h i). Qed.
+
+(** ... and by HandleEnvelop only for a CommandPauseMailbox, which only a supervisor's pause loop sends
+    ([C09_pause_loop_step]) and which is followed by that supervisor's directive *)
+Theorem C09_pause_sites_dispatch s a x e :
+  In IPauseSt (snd (dispatch s a x e)) -> e_msg e = MCmdPause.
+Proof. exact (dispatch_pause_sites s a x e). Qed.
+
+(** ============================ (c) queued mail keeps its order ============================ *)
+
+(** Pause / Resume / Restart never reorder or drop queued user envelopes: for every event and every actor, what
+    the event pops from the head of the user queue followed by the queue afterwards = the queue before followed
+    by what the event pushes at its tail ([pushed_to] is non-empty only for the target of an EvPush, [popped_from]
+    only for an EvUserPop of that actor's consumer in the user-pop position) *)
+Theorem C09_queued_mail_order s ev b :
+  err (step s ev) = false ->
+  popped_from s ev b false ++ uq_at (step s ev) b = uq_at s b ++ pushed_to s ev b false.
+Proof. exact (queue_step s ev b false). Qed.
+
+(** along any run: the user envelopes popped so far, followed by those still queued, are exactly those that
+    were queued at the start followed by those pushed since - in push order.  So the messages queued behind a
+    failing one are popped (and then handled) in their original order after the resume / restart, whatever
+    happened in between; the restarted instance keeps the queue ([C09_restart_finish_ok]) *)
+Theorem C09_queued_mail_fifo b evs s :
+  err (run_events evs s) = false ->
+  popped_run b false evs s ++ uq_at (run_events evs s) b = uq_at s b ++ pushed_run b false evs s.
+Proof. exact (queue_run false b evs s). Qed.
+
+(** a user envelope is popped only by EvUserPop in consumer position C3 ... *)
+Theorem C09_user_pop_position s ev b e :
+  popped_from s ev b false = [e] ->
+  ev = EvUserPop b /\ exists x, get s b = Some x /\ a_cons x = C3 /\ exists r, a_uq x = e :: r.
+Proof. exact (user_pop_needs_c3 s ev b e). Qed.
+
+(** ... and that position is entered only by the paused-load of that consumer reading "not paused": while the
+    mailbox is paused no user message is taken *)
+Theorem C09_user_pop_only_unpaused s ev b x' :
+  get (step s ev) b = Some x' -> a_cons x' = C3 ->
+  exists x, get s b = Some x /\ (a_cons x = C3 \/ (ev = EvLoadPaused b /\ a_cons x = C2 /\ a_paused x = false)).
+Proof. exact (c3_step s ev b x'). Qed.
+
+(** the popped envelope stays in the consumer's hands until the handler call (in reachable states) *)
+Theorem C09_popped_is_handled s ev b :
+  wf s -> err (step s ev) = false ->
+  held_at (step s ev) b ++ handled_at s ev b = held_at s b ++ popped_from s ev b true ++ popped_from s ev b false.
+Proof. exact (fun W He => proj2 (step_wf_held s ev W He) b). Qed.
+
+(** ============================ (e) quiescent states ============================ *)
+
+(** two former findings as regression runs (both fixed in /repo a8829bb; before the fix the first run ended
+    quiescent with C running + paused + its mail stuck and P killing + paused for ever, the second with a paused
+    zombie holding message 12 for ever).
+    Run 1: root -> G (one-for-one, Restart) -> P (one-for-one, Escalate) -> C.  P handles a graceful Kill (-> killing,
+    poison forwarded to C), C then panics (paused, report to P), P escalates (pauses C and itself), G answers with
+    an immediate Restart that reaches P while it is killing: P now resumes itself and passes an immediate kill
+    to C; everything below G terminates and the stuck poison is dead-lettered once *)
+Example C09_ex_restart_reaches_killing_supervisor :
+  let s := run_events rf_evs (init_with rf_scs) in
+  reachable s /\ quiescent s = true /\ map a_state (actors s) = [Running; Running; Killed; Killed] /\
+  map a_paused (actors s) = [false; false; false; false] /\ ghost s = [ODeadLetter false (MKill (RObj 2) true)].
+Proof.
+  cbv zeta. split; [exists rf_scs, rf_evs; split; [reflexivity|vm_compute; reflexivity]|].
+  vm_compute. repeat split.
+Qed.
+
+(** Run 2: under one-for-all a zombie sibling is paused by the pause loop and then sent an immediate Restart: it now
+    resumes its mailbox and keeps consuming its mail (message 12 is consumed silently: no behaviour, no dead letter) *)
+Example C09_ex_zombie_paused_by_one_for_all :
+  let s := run_events zf_evs (init_with zf_scs) in
+  reachable s /\ quiescent s = true /\ map a_zombie (actors s) = [false; false; true; false] /\
+  map a_paused (actors s) = [false; false; false; false] /\ map (fun x => length (a_uq x)) (actors s) = [0; 0; 0; 0]%nat /\
+  ghost s = [] /\ count_obs (is_seen_of (user_tag 12)) (olog s) = 0%nat.
+Proof.
+  cbv zeta. split; [exists zf_scs, zf_evs; split; [reflexivity|vm_compute; reflexivity]|].
+  vm_compute. repeat split.
+Qed.
+
+(** what IS proved about every run (partial; see also (a), (b), (d)):
+    - the flag of a mailbox at the end of a run is the last Pause / Resume word its own thread executed on it
+      (nothing else ever writes it) ... *)
+Theorem C09_quiescent_unpaused_partial scs evs b :
+  err (run_events evs (init_with scs)) = false ->
+  paused_at (run_events evs (init_with scs)) b = match last_pause_word b evs None with Some v => v | None => false end.
+Proof. exact (paused_iff_last_word scs evs b). Qed.
+
+(** - ... and in a quiescent state the only envelopes left anywhere are user envelopes behind such an unanswered
+      Pause: every system queue is empty, no consumer holds anything, no instruction is pending.
+    Missing for the full statement: the invariant "paused /\ running /\ not zombie => a supervision report, a pause /
+    resume / restart / kill directive concerning this actor or an ancestor of its escalation chain is still in a
+    system queue, a consumer's hands or a pending list" (Actor/SearchMail.v: no violation in ~70 000 random
+    schedules over the decision matrix after the three fixes) *)
+Theorem C09_quiescent_mail_only_behind_a_pause scs evs a x :
+  let s := run_events evs (init_with scs) in
+  err s = false -> quiescent s = true -> get s a = Some x -> inbox x <> [] ->
+  inbox x = a_uq x /\ a_paused x = true /\ last_pause_word a evs None = Some true.
+Proof. exact (quiescent_mail_only_behind_a_pause scs evs a x). Qed.
+
+(** ============================ examples ============================ *)
+Local Open Scope N_scope.
+
+(** a child (provider-created, so that instances are distinguishable) fails on message 10 with 11 and 12 queued
+    behind it; its parent decides [d] *)
+Definition ex_child : spec := Spec 2 [] [] [] 0 [] true [] true.
+Definition ex_parent (d : decision) : spec := Spec 1 [ASpawn ex_child] [] [] 1 [d] true [] false.
+Definition ex_scs (d : decision) : list (list action) :=
+  [[ASpawn (ex_parent d)]; [ATell (XPath [1;2]) 10 [APanic]; ATell (XPath [1;2]) 11 []; ATell (XPath [1;2]) 12 []]].
+Definition ex_sched (d : decision) : list event :=
+  let s0 := init_with (ex_scs d) in
+  let e1 := drive 100 [TX 0; TA 0; TA 1; TA 2] s0 in
+  let s1 := run_events e1 s0 in
+  let e2 := drive 100 [TX 1] s1 in
+  e1 ++ e2 ++ drive_all 1000 (run_events e2 s1).
+Definition ex_restart_evs : list event := Eval vm_compute in ex_sched DRestart.
+Definition ex_stop_evs : list event := Eval vm_compute in ex_sched DStop.
+Definition ex_grestart_evs : list event := Eval vm_compute in ex_sched DGRestart.
+
+(** immediate Restart: 11 and 12 are delivered, in order, to the restarted instance (instance 1), after its OnLaunch *)
+Example C09_ex_restart_keeps_mail :
+  let s := run_events ex_restart_evs (init_with (ex_scs DRestart)) in
+  reachable s /\ quiescent s = true /\ ghost s = [] /\ map a_paused (actors s) = [false; false; false] /\
+  olog s = [OSpawn 0 1 0; OSeen 1 0 0 MLaunch; OSpawn 1 2 0; OSeen 2 0 0 MLaunch; OSeen 2 0 0 (MUser 10 [APanic]);
+            OSeen 2 0 0 (MKill (RObj 2) false); OSeen 2 0 0 (MKilled (RObj 2));
+            OSeen 2 1 0 MLaunch; OSeen 2 1 0 (MUser 11 []); OSeen 2 1 0 (MUser 12 [])].
+Proof.
+  cbv zeta. split; [exists (ex_scs DRestart), ex_restart_evs; split; [reflexivity|vm_compute; reflexivity]|].
+  vm_compute. repeat split.
+Qed.
+
+(** immediate Stop: the child is stopped while paused; its cleanup resumes the mailbox and 11 and 12 are
+    dead-lettered, once each, in order *)
+Example C09_ex_stop_dead_letters :
+  let s := run_events ex_stop_evs (init_with (ex_scs DStop)) in
+  reachable s /\ quiescent s = true /\ map a_paused (actors s) = [false; false; false] /\
+  ghost s = [ODeadLetter false (MUser 11 []); ODeadLetter false (MUser 12 [])] /\
+  count_obs (is_seen_of is_user) (olog s) = 1%nat.
+Proof.
+  cbv zeta. split; [exists (ex_scs DStop), ex_stop_evs; split; [reflexivity|vm_compute; reflexivity]|].
+  vm_compute. repeat split.
+Qed.
+
+(** graceful Restart: 11 and 12 are processed by the OLD instance before it restarts *)
+Example C09_ex_graceful_restart :
+  let s := run_events ex_grestart_evs (init_with (ex_scs DGRestart)) in
+  reachable s /\ quiescent s = true /\ ghost s = [] /\ map a_paused (actors s) = [false; false; false] /\
+  olog s = [OSpawn 0 1 0; OSeen 1 0 0 MLaunch; OSpawn 1 2 0; OSeen 2 0 0 MLaunch; OSeen 2 0 0 (MUser 10 [APanic]);
+            OSeen 2 0 0 (MUser 11 []); OSeen 2 0 0 (MUser 12 []);
+            OSeen 2 0 0 (MKill (RObj 2) true); OSeen 2 0 0 (MKilled (RObj 2)); OSeen 2 1 0 MLaunch].
+Proof.
+  cbv zeta. split; [exists (ex_scs DGRestart), ex_grestart_evs; split; [reflexivity|vm_compute; reflexivity]|].
+  vm_compute. repeat split.
+Qed.
+
+(** regression (finding fixed in /repo 20ffea6): a stale OnKilled of a released child, handled after the parent has
+    spawned a new child under the same name, must not make the parent forget the new child.  Schedule: the old
+    child releases its path, the parent respawns the name, then handles the old child's OnKilled, then is killed:
+    the new child (actor 3) is terminated with its parent and a later message to it is dead-lettered *)
+Definition ex_orphan_scs : list (list action) :=
+  let c := Spec 2 [] [] [] 0 [] true [] false in
+  [ [ASpawn (Spec 1 [ASpawn c] [] [] 1 [] true [] false)];
+    [ATell (XPath [1]) 10 [AKill (XChild 2) false]];
+    [ATell (XPath [1]) 11 [ASpawn c]];
+    [AKill (XPath [1]) false];
+    [ATell (XPath [1;2]) 12 [APanic]] ].
+Definition ex_orphan_sched : list event :=
+  let s0 := init_with ex_orphan_scs in
+  let e1 := drive 100 [TX 0; TA 0; TA 1; TA 2] s0 in let s1 := run_events e1 s0 in
+  let e2 := drive 100 [TX 1; TA 1] s1 in let s2 := run_events e2 s1 in
+  let e3 := drive 2 [TA 2] s2 in let s3 := run_events e3 s2 in
+  let e4 := drive 100 [TX 2; TA 1] s3 in let s4 := run_events e4 s3 in
+  let e5 := drive 100 [TA 2; TA 1; TA 0; TA 3] s4 in let s5 := run_events e5 s4 in
+  let e6 := drive 100 [TX 3; TA 1; TA 0; TA 2; TA 3] s5 in let s6 := run_events e6 s5 in
+  e1 ++ e2 ++ e3 ++ e4 ++ e5 ++ e6 ++ drive_all 1000 s6.
+Definition ex_orphan_evs : list event := Eval vm_compute in ex_orphan_sched.
+Example C09_ex_stale_onkilled_keeps_new_child :
+  let s := run_events ex_orphan_evs (init_with ex_orphan_scs) in
+  reachable s /\ quiescent s = true /\ map a_state (actors s) = [Running; Killed; Killed; Killed] /\
+  map a_paused (actors s) = [false; false; false; false] /\ reg s = [] /\
+  ghost s = [ODeadLetter false (MUser 12 [APanic])].
+Proof.
+  cbv zeta. split; [exists ex_orphan_scs, ex_orphan_evs; split; [reflexivity|vm_compute; reflexivity]|].
+  vm_compute. repeat split.
+Qed.
+
+Print Assumptions C09_failure_pauses_and_reports_once.
+Print Assumptions C09_behaviour_invocation.
+Print Assumptions C09_failed_iff_panic.
+Print Assumptions C09_no_supervision_while_stopping_onkill.
+Print Assumptions C09_no_supervision_while_stopping.
+Print Assumptions C09_supervise.
+Print Assumptions C09_root_decides_stop.
+Print Assumptions C09_pause_loop_step.
+Print Assumptions C09_pause_loop_end.
+Print Assumptions C09_resume_decision.
+Print Assumptions C09_restart_decision.
+Print Assumptions C09_restart_received.
+Print Assumptions C09_check_mark.
+Print Assumptions C09_restart_finish_ok.
+Print Assumptions C09_restart_finish_zombie.
+Print Assumptions C09_resume_unpauses.
+Print Assumptions C09_resume_command.
+Print Assumptions C09_zombie_unpaused_and_silent.
+Print Assumptions C09_zombie_runs_no_user_code.
+Print Assumptions C09_zombie_kill.
+Print Assumptions C09_zombie_killed.
+Print Assumptions C09_zombie_release.
+Print Assumptions C09_unzombie.
+Print Assumptions C09_stop_decision.
+Print Assumptions C09_cleanup.
+Print Assumptions C09_escalate.
+Print Assumptions C09_queued_mail_order.
+Print Assumptions C09_queued_mail_fifo.
+Print Assumptions C09_user_pop_position.
+Print Assumptions C09_user_pop_only_unpaused.
+Print Assumptions C09_popped_is_handled.
+Print Assumptions C09_paused_only_by_pause_resume.
+Print Assumptions C09_pause_sites_exec.
+Print Assumptions C09_pause_sites_dispatch.
+Print Assumptions C09_quiescent_unpaused_partial.
+Print Assumptions C09_quiescent_mail_only_behind_a_pause.
